@@ -264,3 +264,77 @@ def pin_extract(p, res):
         else:
             res.ok('get_unquoted_value(%r) == %r' % (v, want))
     res.require_floor(14)
+
+
+# ------------------------------------------------------------ DEC-CHARCLASS
+@rule('DEC-CHARCLASS', 'D', 'character class predicates, decided over all 256 Latin-1 characters and the empty string')
+def dec_charclass(p, res):
+    import string
+    ev = MiniEval(p)
+    letters = set(string.ascii_letters)
+    digits = set(string.digits)
+    chars = [chr(i) for i in range(256)] + ['']
+    spec = {
+        'scanner_utils.is_alpha': lambda c: c in letters,
+        'scanner_utils.is_number': lambda c: c != '' and c.isdecimal(),
+        'scanner_utils.is_alpha_numeric': lambda c: c in letters or (c != '' and c.isdecimal()),
+        'scanner_utils.is_alpha_word': lambda c: c in letters or c == '_',
+        'scanner_utils.is_alpha_numeric_word': lambda c: c in letters or c == '_' or (c != '' and c.isdecimal()),
+        'scanner_utils.is_white_space': lambda c: c in (' ', '\t', '\xa0'),
+        'scanner_utils.is_space': lambda c: c in (' ', '\t', '\xa0', '\n', '\r'),
+        'scanner_utils.is_quote': lambda c: c in ('"', "'"),
+        'css_abbreviation.tokenizer.is_hex': lambda c: c in digits or c in set('abcdefABCDEF') or (c != '' and c.isdecimal()),
+        'css_abbreviation.tokenizer.is_keyword': lambda c: c in letters or c in ('_', '-') or (c != '' and c.isdecimal()),
+        'css_abbreviation.tokenizer.is_literal': lambda c: c in letters or c in ('_', '%', '/'),
+        'css_abbreviation.tokenizer.is_ident_prefix': lambda c: c in ('@', '$'),
+        'css_abbreviation.tokenizer.is_bracket': lambda c: c in ('(', ')'),
+        'abbreviation.tokenizer.is_element_name': lambda c: c in letters or c in ('_', '-', ':', '!') or (c != '' and c.isdecimal()),
+        'html_matcher.utils.is_terminator': lambda c: c in ('>', '/'),
+        'extract_abbreviation.is_html.is_ident': lambda c: c in letters or c in (':', '-') or (c != '' and c.isdecimal()),
+        'extract_abbreviation.is_html.is_white_space': lambda c: c in (' ', '\t'),
+        'markup.format.template.is_token_start': lambda c: c != '' and 'A' <= c <= 'Z',
+        'markup.format.template.is_token': lambda c: c != '' and ('A' <= c <= 'Z' or c in ('_', '-') or '0' <= c <= '9'),
+        'math_expression.parser.is_operator': lambda c: c in ('+', '-', '*', '/', '\\'),
+    }
+    for fq, want in spec.items():
+        f = p.func(fq)
+        bad = []
+        for c in chars:
+            got = bool(ev.call(f, [c]))
+            if got != bool(want(c)):
+                bad.append(c)
+        if bad:
+            res.bad(F('DEC-CHARCLASS', f, f.node, '%s(%r) -> %r' % (f.name, bad[0], not want(bad[0])),
+                      'character class changed for %d character(s), e.g. %r' % (len(bad), bad[:6])))
+        else:
+            res.ok('%s decided over 257 inputs' % f.short)
+    res.require_floor(18)
+
+
+# ----------------------------------------------------------- OWN-CACHEUSE
+@rule('OWN-CACHEUSE', 'D', 'the host-supplied cache dict is touched only by the stylesheet snippet conversion, under its one constant key')
+def own_cacheuse(p, res):
+    cfg = p.cls('config.Config')
+    for f in p.funcs.values():
+        for n in f.body_nodes():
+            if isinstance(n, ast.Attribute) and n.attr == 'cache':
+                t = p.type_of(f, n.value)
+                is_cfg = (isinstance(t, Class) and t is cfg) or src_of(n.value) in ('config', 'self') and (f.cls is cfg or 'config' in f.params)
+                if not is_cfg:
+                    continue
+                if f.qualname in ('emmet.stylesheet.parse', 'emmet.config.Config.__init__'):
+                    res.ok('%s: %s' % (f.short, src_of(p.enclosing_stmt(f, n)).split('\n')[0][:70]))
+                else:
+                    res.bad(F('OWN-CACHEUSE', f, n, src_of(p.enclosing_stmt(f, n)).split('\n')[0],
+                              'the caller\'s cache is used outside the stylesheet snippet conversion: whatever is stored there is shared between calls and must never be handed out for mutation'))
+            if isinstance(n, ast.Call) and isinstance(n.func, ast.Attribute) and n.func.attr == 'get' and n.args and p.try_const(f, n.args[0]) == 'cache' \
+                    and f.qualname != 'emmet.config.Config.__init__':
+                res.bad(F('OWN-CACHEUSE', f, n, src_of(n), 'the cache entry of the user config is read outside Config.__init__'))
+    # memoisation decorators / module-level memo tables
+    for m in p.modules.values():
+        for n in ast.walk(m.tree):
+            if isinstance(n, ast.FunctionDef) and n.decorator_list:
+                for d in n.decorator_list:
+                    if 'cache' in src_of(d) or 'memo' in src_of(d).lower():
+                        res.bad(Finding('OWN-CACHEUSE', m.relpath, m.name[6:] + '.' + n.name, '@' + src_of(d), 'memoising decorator: results (mutable objects) are shared between calls and configurations', n.lineno))
+    res.require_floor(4)
